@@ -47,7 +47,10 @@ def run(ck: Check, prog: Program) -> None:
               sample={'memoised_in_tree': sorted(short(q) for q, f in eff.tree.items() if eff.is_memoised(f))})
         for t in rs:
             sink_kind = 'cache key' if t.sink.startswith('cache key') else 'store'
-            ck.finding('RETAIN', t.func.qualname, f'per-request value → {t.sink.replace("pjrpc.server.validators.", "")}', t.func.module.rel, t.line,
+            import re as _re
+            m_ = _re.search(r'per-request because \S+ (\S+) passes', t.value or '')
+            via = f' via {m_.group(1)}' if m_ else ''
+            ck.finding('RETAIN', t.func.qualname, f'per-request value → {t.sink.replace("pjrpc.server.validators.", "")}{via}', t.func.module.rel, t.line,
                        f'`{t.text}` hands the per-request value `{t.value}` to a long-lived sink ({t.sink}): the library keeps a '
                        f'reference to something created for this request after the dispatch returns (memory grows with the number '
                        f'of requests served)', [f'{t.func.module.rel}:{t.line} {t.text}', t.value])
